@@ -74,6 +74,17 @@ def run(v, tier, rng):
                     c = mk(name, mode, org, "num", tgt)
                     c.update({"name": name, "mode": mode, "dir": "num", "n": tgt})
                     cs.append(c)
+    # a branch as the first statement of the file, or the first after a [BITS n] that switches mode, in a source that
+    # contains both modes: it must be encoded in the mode in force where it stands
+    for name in (["JMP", "JE", "JNLE", "CALL"] if tier == "quick" else ALL):
+        kindl = "JMP" if name == "JMP" else "CALL" if name == "CALL" else "JCC"
+        for m1, m2 in ((16, 32), (32, 16)):
+            h1 = [("config", "BITS", ("num", 32))] if m1 == 32 else []
+            est = (3 if kindl == "CALL" else 2) if m1 == 16 else (6 if kindl == "JCC" else 5)
+            prog = h1 + [("mn", name, [A.ident("tgt")])] + filler(1) + [("label", "tgt"), ("mn", "DB", [A.hexn(0xAB)]), ("config", "BITS", ("num", m2)), ("mn", "DB", [A.hexn(0x90)])]
+            cs.append({"prog": prog, "off": 0, "target": ("abs", est + 1), "origin": 0, "name": name, "mode": m1, "dir": "fwd", "n": 1})
+            prog = h1 + [("mn", "DB", [A.hexn(0x90)]), ("config", "BITS", ("num", m2)), ("mn", name, [A.ident("tgt")])] + filler(1) + [("label", "tgt"), ("mn", "DB", [A.hexn(0xAB)])]
+            cs.append({"prog": prog, "off": 1, "target": ("end", None), "origin": 0, "name": name, "mode": m2, "dir": "fwd", "n": 1})
     cases = [{"id": str(i), "srcs": [A.p_program(c["prog"])]} for i, c in enumerate(cs)]
     res = lib.run_cases(cases, "c04")
     # correspondence
